@@ -26,6 +26,7 @@ class TypeFlow:
         self.calls = {}  # id(call node) -> set of (Func, bound)
         self.call_nodes = []  # (call node, Func-or-None, module)
         self.untyped_fallback = set()
+        self.partial_shift = {}  # callee qual -> numbers of positional arguments fixed by functools.partial somewhere
         self.unresolved = []
         self.fld_index = {}
         self.gkeys = {}
@@ -232,8 +233,31 @@ class TypeFlow:
             return self.ev(e.value, f, mod)
         return set()
 
+    def _strconsts(self):
+        sc = getattr(self, "_sc", None)
+        if sc is None:
+            sc = set()
+            for m in self.P.modules.values():
+                for n in ast.walk(m.tree):
+                    if isinstance(n, ast.Constant) and isinstance(n.value, str):
+                        sc.add(n.value)
+            self._sc = sc
+        return sc
+
     def callee_vals(self, c, f, mod):
         return self.ev(c.func, f, mod)
+
+    def _is_partial(self, c, mod):
+        fn = c.func
+        if not c.args:
+            return False
+        if isinstance(fn, ast.Name) and fn.id == "partial":
+            imp = mod.imports.get("partial")
+            return bool(imp) and imp[0] != "module" and imp[1] == "functools"
+        if isinstance(fn, ast.Attribute) and fn.attr == "partial" and isinstance(fn.value, ast.Name):
+            imp = mod.imports.get(fn.value.id)
+            return bool(imp) and imp[0] == "module" and imp[1] == "functools"
+        return False
 
     def ev_call(self, c, f, mod):
         P = self.P
@@ -263,6 +287,9 @@ class TypeFlow:
                         out |= self._get(("ret", m.qual))
                 elif v[0] == "K":
                     out.add(("C", v[1], self.site(c, mod)))
+        if self._is_partial(c, mod):
+            # functools.partial(g, ...) is g with some arguments fixed: calling the result calls g
+            out |= self.ev(c.args[0], f, mod)
         if isinstance(fn, ast.Name) and fn.id == "getattr" and len(c.args) >= 2:
             for v in self.ev(c.args[0], f, mod):
                 if v[0] == "M":
@@ -272,6 +299,24 @@ class TypeFlow:
                         for g in P.funcs.values():
                             if g.module.name == v[1] and g.parent is None and g.cls is None and not g.is_lambda:
                                 out.add(("F", g.qual))
+                elif v[0] in ("C", "K"):
+                    # reflection on an object of a known class: a constant name is an attribute read; a computed name can be
+                    # any method of the class whose name is spelled as a string constant somewhere in the package
+                    cl = P.classes[v[1]]
+                    if isinstance(c.args[1], ast.Constant) and isinstance(c.args[1].value, str):
+                        names = [c.args[1].value]
+                    else:
+                        names = [nm for k in P.mro(cl) for nm in k.methods if nm in self._strconsts()]
+                    for nm in names:
+                        m = P.method(cl, nm)
+                        if m is None:
+                            continue
+                        if v[0] == "K":
+                            out.add(("BM", m.qual, v) if m.is_classmethod else ("F", m.qual))
+                        else:
+                            out.add(("F", m.qual) if m.is_staticmethod else ("BM", m.qual, v))
+                    if isinstance(c.args[1], ast.Constant) and isinstance(c.args[1].value, str):
+                        out |= self.read_field({v}, c.args[1].value)
         if isinstance(fn, ast.Attribute) and fn.attr in CONTAINER_METHODS_RET:
             out |= self.ev(fn.value, f, mod)
         if isinstance(fn, ast.Attribute) and fn.attr in ("deepcopy", "copy") and isinstance(fn.value, ast.Name):
@@ -312,6 +357,20 @@ class TypeFlow:
         targets = set()
         cvals = self.callee_vals(c, f, mod)
         fn = c.func
+        cargs = list(c.args)
+        if self._is_partial(c, mod):
+            # the arguments fixed here reach the wrapped callable's parameters; later calls of the result supply the rest,
+            # shifted by the number of positional arguments fixed here
+            cvals = self.ev(c.args[0], f, mod)
+            cargs = list(c.args[1:])
+            if cargs:
+                for v in cvals:
+                    if v[0] in ("F", "BM"):
+                        self.partial_shift.setdefault(v[1], set()).add(len(cargs))
+                    elif v[0] == "K":
+                        m = P.method(P.classes[v[1]], "__init__")
+                        if m is not None:
+                            self.partial_shift.setdefault(m.qual, set()).add(len(cargs))
         if self.use_fallback and not cvals and isinstance(fn, ast.Attribute):
             # unknown receiver: fall back to every class that defines the method, unless the
             # receiver is evidently a builtin container / string / module value
@@ -347,8 +406,8 @@ class TypeFlow:
                 for attr, pname in pc.items():
                     idx = g.params.index(pname) - 1
                     vs = None
-                    if 0 <= idx < len(c.args) and not any(isinstance(a, ast.Starred) for a in c.args[: idx + 1]):
-                        vs = self.ev(c.args[idx], f, mod)
+                    if 0 <= idx < len(cargs) and not any(isinstance(a, ast.Starred) for a in cargs[: idx + 1]):
+                        vs = self.ev(cargs[idx], f, mod)
                     else:
                         for kw in c.keywords:
                             if kw.arg == pname:
@@ -365,16 +424,17 @@ class TypeFlow:
                 params = params[1:]
             elif g.is_classmethod and params:
                 params = params[1:]
-            for i, a in enumerate(c.args):
-                if isinstance(a, ast.Starred):
-                    vs = self.ev(a.value, f, mod)
-                    for p in params[i:]:
-                        self._add(("v", g.qual, p), vs)
-                    break
-                if i < len(params):
-                    self._add(("v", g.qual, params[i]), self.ev(a, f, mod))
-                elif g.vararg:
-                    self._add(("v", g.qual, g.vararg), self.ev(a, f, mod))
+            for shift in [0] + sorted(self.partial_shift.get(g.qual, ())):
+                for i, a in enumerate(cargs):
+                    if isinstance(a, ast.Starred):
+                        vs = self.ev(a.value, f, mod)
+                        for p in params[i + shift:]:
+                            self._add(("v", g.qual, p), vs)
+                        break
+                    if i + shift < len(params):
+                        self._add(("v", g.qual, params[i + shift]), self.ev(a, f, mod))
+                    elif g.vararg:
+                        self._add(("v", g.qual, g.vararg), self.ev(a, f, mod))
             for kw in c.keywords:
                 if kw.arg is not None and (kw.arg in g.params or kw.arg in g.kwonly):
                     self._add(("v", g.qual, kw.arg), self.ev(kw.value, f, mod))
